@@ -126,7 +126,7 @@ fn gen_len(rng: &mut Rng, cap: usize, tl: usize, fill: usize, min: usize) -> usi
         9 => 1 + rng.usize_below(cap.clamp(1, 24)),
         _ => rng.usize_below(2 * cap + 8),
     };
-    l.clamp(min, 5000)
+    l.clamp(min, if cap > 5000 { cap + 64 } else { 5000 })
 }
 
 
@@ -183,13 +183,22 @@ impl Engine for E2 {
                 0 => LbMode::FaultFree,
                 _ => LbMode::Faulty,
             },
+            // packing is also judged where writes are refused (a refused write never licenses an
+            // extra one): a fifth of C19's runs
+            "C19" => match cfg.weighted(&[80, 20]) {
+                0 => LbMode::FaultFree,
+                _ => LbMode::Faulty,
+            },
             _ => LbMode::FaultFree,
         };
         let mode = if mode == LbMode::FlushFault && route != Route::Writer { LbMode::Faulty } else { mode };
-        let cap = match cfg.weighted(&[70, 10, 20]) {
+        let cap = match cfg.weighted(&[68, 10, 19, 3]) {
             0 => Some(*cfg.pick(CAPS)),
             1 => None,
-            _ => Some(cfg.usize_below(if tier == Tier::Thorough { 4097 } else { 600 })),
+            2 => Some(cfg.usize_below(if tier == Tier::Thorough { 4097 } else { 600 })),
+            // rarely a large buffer (jumbo frames, Unix sockets): anything that silently assumes a
+            // small one shows here
+            _ => Some(*cfg.pick(&[8192usize, 8193, 9000, 16_384, 20_000])),
         };
         let term = if route == Route::Writer { cfg.pick(TERMS).to_string() } else { "\n".to_string() };
         let via_client = route != Route::Writer && cfg.chance(1, 3);
@@ -198,7 +207,7 @@ impl Engine for E2 {
         let capv = cap.unwrap_or(512);
         let tl = if route == Route::Writer { term.len() } else { 1 };
         let min = if via_client { 5 } else if tl == 0 { 1 } else { 0 };
-        let n_ops = 1 + prog.usize_below(if tier == Tier::Thorough { 60 } else { 40 });
+        let n_ops = 1 + prog.usize_below(if capv > 5000 { 12 } else if tier == Tier::Thorough { 60 } else { 40 });
         let flush_w = *prog.pick(&[0u32, 5, 15, 30]);
         let mut ops = Vec::new();
         let mut fill = 0usize;
@@ -796,6 +805,11 @@ fn run_case(case: &LbCase, out: &mut Outcome, want_trace: bool) {
                 v.clause.as_str(),
                 "linebuf.flush-ok-but-still-buffered" | "linebuf.written-twice" | "linebuf.write-wrong-lines" | "stream.accepted-never-written" | "stream.written-twice" | "linebuf.drop-left-metrics-unwritten" | "stream.order" | "linebuf.bypass-not-written"
             );
+            if matches!(v.clause.as_str(), "linebuf.needless-write" | "linebuf.not-greedy") {
+                // packing is C19's alone, with or without refused writes
+                v.props = vec!["C19".to_string()];
+                continue;
+            }
             let mut props = vec!["C07".to_string()];
             if panicked {
                 props.push("C20".to_string());
